@@ -669,6 +669,25 @@ class SStr(Sym):
     def __iter__(self):
         raise OutOfSubset('iteration over a symbolic string')
 
+    def __getitem__(self, i):
+        n = z3.Length(self.t)
+        if isinstance(i, slice):
+            if i.step is not None:
+                raise OutOfSubset('extended slice of a symbolic string')
+
+            def norm(x, default):
+                if x is None:
+                    return default
+                xt = as_int_term(x)
+                xt = z3.If(xt < 0, xt + n, xt)
+                return z3.If(xt < 0, 0, z3.If(xt > n, n, xt))
+            lo, hi = norm(i.start, z3.IntVal(0)), norm(i.stop, n)
+            return mk_str(z3.If(hi > lo, z3.SubString(self.t, lo, hi - lo), z3.StringVal('')))
+        it = as_int_term(i)
+        if not ctx().branch(z3.And(it < n, it >= -n), 'str-index-in-range'):
+            raise IndexError('string index out of range')
+        return mk_str(z3.SubString(self.t, z3.If(it >= 0, it, n + it), 1))
+
 
 # string spec symbols shared by all theories (ASCII assumption, DESIGN 3.3)
 _LOWER = z3.Function('lower', z3.StringSort(), z3.StringSort())
